@@ -38,6 +38,11 @@ PairProductOk(w, F) ==
                          Cardinality({k2 \in 1..Len(w[1]) : VarOf(w, k2, c) > VarOf(w, k, c)}) = r - 1]} :
       \A comp \in 1..3 : \A s1 \in 1..Len(w), s2 \in 1..Len(w) :
          F[s1][c][comp] * F[s2][c][comp] = w[s1][order[comp]][c] * w[s2][order[comp]][c]
+\* a request of TWO waveforms (+m and -m on one sample axis per channel): only the FIRST component is determined -
+\* it is that axis (the covariance has rank one; the other components span its null space in any way)
+FirstComponentOk(w, F) ==
+   \A c \in 1..Len(w[1][1]) : \A k \in {kk \in 1..Len(w[1]) : VarOf(w, kk, c) > 0} :
+      \A s1 \in 1..Len(w), s2 \in 1..Len(w) : F[s1][c][1] * F[s2][c][1] = w[s1][k][c] * w[s2][k][c]
 \* the same for a LONG request given as distinct waveforms with multiplicities (cnt[s] copies of w[s]): the
 \* principal axes are those of ALL the waveforms of the request
 VarOfW(w, cnt, k, c) == SumSeq([s \in 1..Len(w) |-> cnt[s] * w[s][k][c] * w[s][k][c]])
